@@ -356,6 +356,7 @@ def run_rt_correspondence(ctx, cases, name, seed=1):
     port = 58000 + (os.getpid() * 7 + seed * 131) % 1500
     outs = ctx.impl('c05_kscript', {'cases': cases, 'seed': seed}, mode='rt', timeout=900,
                     extra_env={'SC3_LIB_PORT': str(port)})['out']
+    outs = outs + [{'fatal': 'not run: the runner stopped at a stuck program'}] * (len(cases) - len(outs))
     items, idx = [], []
     codes = [-1] * len(cases)
     for i, (p, o) in enumerate(zip(cases, outs)):
@@ -640,6 +641,9 @@ def probe_combos(rt):
     for op in (['beats', 'tempo', 'tempo', 'reads'] if rt else ['beats', 'etempo', 'tempo', 'reads']):
         for i in range(2):
             combos.append((op, ['T', i], ['T', i]))
+    for target in kinds:                                  # reset / stop / pause+resume by another routine while a wake-up is pending
+        for parent in ([target] if rt else kinds):        # RT: controller on the victim's own clock thread (one deterministic order)
+            combos.append(('state_op', parent, target))
     for parent in kinds:                                  # play with a Quant (default, int, tuple, Quant; negative phases) onto a TempoClock
         for target in (['T', 0], ['T', 1]):
             combos.append(('playq', parent, target))
@@ -668,6 +672,13 @@ def gen_probe(rng, k, rt=False):
           # RT: only move the beats forward (a task moved to the past runs at once; moved to the future it would wait)
           str(Fraction(rng.randint(512, 1024), 8) if rt else Fraction(rng.randint(0, 64), 8)),
           'after': q()}
+    if op == 'state_op':
+        pr['sop'] = rng.choice(['reset', 'reset', 'stop', 'pause_resume'])
+        pr['n'] = rng.randint(3, 5)
+        pr['after'] = str(scale)                                               # the victim's delta (beats of ITS clock)
+        pr['adv'] = str(Fraction(rng.choice([3, 5, 7, 9, 11, 19]), 16) * scale)  # never on one of the victim's instants
+        pr['adv2'] = str(Fraction(rng.choice([1, 3, 5]), 32) * scale)
+        pr['rquant'] = '0' if rt else rng.choice([None, '0'])
     if op == 'playq':
         qn = rng.choice([1, 2, 4, 3])
         ph = Fraction(rng.randint(-(4 * qn - 1), 4 * qn - 1), 4)          # any phase in (-quant, quant), negative ones included
@@ -748,6 +759,37 @@ def probe_expected(pr, o):
         exp = T + dur(tg, F(pr['delta']))
         chk('%s(%s) from a routine on %s onto %s: logical seconds when the function ran' % (op, pr['delta'], pr['parent'], tg), o['ran']['secs'], exp)
         chk('target clock beats when the function ran', o['ran']['beats'], s2b(tg, T) + (F(pr['delta']) if tg not in ('S', 'A') else dur(tg, F(pr['delta']))))
+    if op == 'state_op':
+        d = F(pr['after'])
+        step = dur(tg, d)
+        ttempo = F(1) if tg in ('S', 'A') else tempo[tg[1]]
+        b0 = s2b(tg, T)
+        T2 = T + dur(pr['parent'], F(pr['adv']))
+        n = pr['n']
+        m = 0
+        while T + m * step < T2 and m <= n:
+            m += 1                                       # resumptions 0 .. m-1 happened before the operation
+        exp = [(T + j * step, b0 + j * d) for j in range(min(m, n + 1))]
+        sop = pr['sop']
+        if m <= n:
+            if sop == 'reset':                           # restarts from its first line at the pending wake-up, on ITS clock
+                D = T + m * step
+                exp += [(D + i * step, b0 + (m + i) * d) for i in range(n + 1)]
+            elif sop == 'pause_resume':
+                T3 = T2 + dur(pr['parent'], F(pr['adv2']))
+                bb = s2b(tg, T3)
+                if tg in ('S', 'A') or pr.get('rquant') is not None:
+                    g = bb
+                else:
+                    g = F(math.ceil(bb))                 # resume() plays on the routine's clock with the default Quant
+                s3 = T3 + (g - bb) / ttempo
+                exp += [(s3 + i * step, g + i * d) for i in range(n + 1 - m)]
+        got = [(F(a), F(b)) for a, b in o['resumes']]
+        if got != exp:
+            k = next((i for i, (x, y) in enumerate(zip(got, exp)) if x != y), min(len(got), len(exp)))
+            bad.append(('routine on %s (delta %s) that a routine on %s %ss at logical time %s while its wake-up is pending: (seconds, beats) of its '
+                        'resumptions, first difference at index %d' % (clock_name(tg), pr['after'], clock_name(pr['parent']), sop, T2, k),
+                        str([(str(a), str(b)) for a, b in got[max(0, k - 1):k + 2]]), str([(str(a), str(b)) for a, b in exp[max(0, k - 1):k + 2]])))
     if op == 'playq':
         # documented: the child starts at the NEXT beat >= now on the grid  base_bar_beat + phase + n * quant  (phase within
         # (-quant, quant), a negative one counts back from the next grid line); quant 0: now + phase; never before now
